@@ -687,6 +687,10 @@ class FTPWARCRecorderSession(BaseWARCRecorderSession):
         )
 
     def end_control(self, response: FTPResponse, connection_closed=False):
+        if not self._control_record:
+            # The control connection was never established.
+            return
+
         hostname, port = self._request_hostname_port()
 
         if connection_closed:
